@@ -100,6 +100,49 @@ def check_toposort_contract(graph, start, result):
                 raise ToposortContractBroken("edge %r -> %r not respected" % (u, v))
 
 
+class ToposortBoundExceeded(AssertionError):
+    pass
+
+
+class _CountingGraph:
+    """Read-only view of the ordering graph that bounds the number of successor lookups: a
+    depth-first search needs one lookup per reachable vertex; a search that does not
+    terminate (e.g. on a cycle) exceeds any bound -- a logical step bound, not a clock."""
+
+    def __init__(self, graph):
+        self._g = graph
+        self._n = 0
+        self._bound = 4 * (len(graph) + sum(len(v) for v in graph.values())) + 64
+
+    def get(self, key, default=None):
+        self._n += 1
+        if self._n > self._bound:
+            raise ToposortBoundExceeded("toposort made more than %d successor lookups on a graph of %d vertices"
+                                        % (self._bound, len(self._g)))
+        return self._g.get(key, default)
+
+    def __getitem__(self, key):
+        return self.get(key, ())
+
+    def __contains__(self, key):
+        return key in self._g
+
+    def __iter__(self):
+        return iter(self._g)
+
+    def __len__(self):
+        return len(self._g)
+
+    def keys(self):
+        return self._g.keys()
+
+    def values(self):
+        return self._g.values()
+
+    def items(self):
+        return self._g.items()
+
+
 def install_toposort(rng=None, contract_every=1):
     """Replace tasks.toposort by a wrapper that (a) shuffles the start set with `rng` (every
     permutation of a set's iteration order is an order the program can really have) and
@@ -118,7 +161,10 @@ def install_toposort(rng=None, contract_every=1):
             if st["rng"] is not None and len(start) > 1:
                 st["rng"].shuffle(start)
                 COUNTS["shuffles"] += 1
-        res = real(graph, start)
+        if start is not None and st["every"]:
+            res = real(_CountingGraph(graph), start)
+        else:
+            res = real(graph, start)
         st["n"] += 1
         if start is not None and st["every"] and st["n"] % st["every"] == 0:
             COUNTS["toposort_contract_checks"] += 1
